@@ -21,7 +21,8 @@ N = int(sys.argv[1]) if len(sys.argv) > 1 else 150
 rng = random.Random(int(sys.argv[2]) if len(sys.argv) > 2 else 0)
 
 ERR = {"ZeroDivisionError": "ZeroDivisionError", "DivisionByZero": "DivisionByZero", "InvalidOperation": "InvalidOperation",
-       "AssertionError": "AssertionError", "KeyError": "KeyError", "ValueError": "ValueError", "TypeError": "TypeError"}
+       "AssertionError": "AssertionError", "KeyError": "KeyError", "ValueError": "ValueError", "TypeError": "TypeError", "IndexError": "IndexError",
+       "RuntimeError": "RuntimeError", "OverflowError": "OverflowError"}
 
 
 def li(n):           # Lean Int literal
@@ -210,7 +211,179 @@ for _ in range(N):
     case("sq_vault_status", f"(sq_get_vault_status NumCtx.py {lr(w_price)} {lr(sh2)} {lr(tot)} {lr(nf_)} {lgiven}).map (fun r => (if r.1 then (10 : Int) else 0) + (if r.2 then 1 else 0))",
          "shI", lambda: (lambda r: 10 * int(r[0]) + int(r[1]))(sq.get_vault_status(VaultKey(7), nf_, given)))
 
+    # ---- uniswap/core.py V3CoreLib: positions and the per-bar fee (objects built as the market builds them; the Lean side gets the fields they read)
+    from demeter.uniswap.core import V3CoreLib
+    from demeter.uniswap._typing import UniV3Pool, Position, PositionInfo, UniV3PoolStatus
+    from demeter.uniswap.helper import from_atomic_unit
+    upool = UniV3Pool(TokenInfo("USDC", d0), TokenInfo("WETH", d1), 0.05, TokenInfo("USDC", d0))
+    lo_t, up_t = sorted([ta, tb]) if rng.random() < 0.85 else (ta, tb)
+    if rng.random() < 0.03:
+        up_t = rng.choice([887273, -887273, 10**6])
+
+    def new_pos():
+        r = V3CoreLib.new_position(upool, a0, a1, lo_t, up_t, s)
+        assert type(r[3]) is PositionInfo
+        return (r[0], r[1], r[2], r[3].lower_tick, r[3].upper_tick)
+    case("uc_new_position", f"(unicore_new_position NumCtx.py {li(d0)} {li(d1)} {lr(a0)} {lr(a1)} {li(lo_t)} {li(up_t)} {li(s)}).map "
+                            f"(fun r => s!\"({{rs r.1}}, {{rs r.2.1}}, {{r.2.2.1}}, {{r.2.2.2.1}}, {{r.2.2.2.2}})\")", "shS", new_pos)
+    Lq = rng.choice([0, L, rng.randint(1, 10**20), -rng.randint(1, 10**12)])
+    pinfo = PositionInfo(lo_t, up_t)
+    # the result is (int 0, int 0) for a zero liquidity and Decimals otherwise: the translated type is the number (`num`), so compare the values
+    num2 = lambda r: (Decimal(r[0]), Decimal(r[1]))      # noqa: E731
+    case("uc_token_amounts", f"unicore_get_token_amounts NumCtx.py {li(d0)} {li(d1)} {li(lo_t)} {li(up_t)} {li(s)} {li(Lq)}", "shRR",
+         lambda: num2(V3CoreLib.get_token_amounts(upool, pinfo, s, Lq)))
+    case("uc_close_position", f"unicore_close_position NumCtx.py {li(d0)} {li(d1)} {li(lo_t)} {li(up_t)} {li(Lq)} {li(s)}", "shRR",
+         lambda: num2(V3CoreLib.close_position(upool, pinfo, Lq, s)))
+    # a position's liquidity held as a Decimal (after a partial removal): the products with it round
+    Ld = rng.choice([Decimal(Lq), Decimal(rng.randint(1, 10**40)), rand_dec()])
+    case("uc_token_amounts_dliq", f"unicore_get_token_amounts_dliq NumCtx.py {li(d0)} {li(d1)} {li(lo_t)} {li(up_t)} {li(s)} {lr(Ld)}", "shRR",
+         lambda: num2(V3CoreLib.get_token_amounts(upool, pinfo, s, Ld)))
+    case("uc_close_position_dliq", f"unicore_close_position_dliq NumCtx.py {li(d0)} {li(d1)} {li(lo_t)} {li(up_t)} {lr(Ld)} {li(s)}", "shRR",
+         lambda: num2(V3CoreLib.close_position(upool, pinfo, Ld, s)))
+    x_at = rng.choice([rand_dec(), Decimal(rng.randint(0, 10**24)), -rand_dec(-3, 8, 6)])
+    case("from_atomic_dec", f"uni_from_atomic_unit_dec NumCtx.py {lr(x_at)} {li(d0)}", "shR", lambda: from_atomic_unit(x_at, d0))
+    # update_fee: ticks around a range so that every branch (inside, same side, crossing up/down/over, touching a bound) is met
+    f_lo = rng.randint(-3000, 3000)
+    f_up = f_lo + rng.choice([0, 1, 10, 60, 600])
+    pick = lambda: rng.choice([f_lo, f_up, f_lo - 1, f_up - 1, f_up + 1, rng.randint(f_lo - 700, f_up + 700)])      # noqa: E731
+    f_last, f_close = pick(), pick()
+    f_liq = rng.choice([0, rng.randint(1, 10**18)])
+    f_cur = rng.choice([Decimal(0), Decimal(rng.randint(1, 10**22)), Decimal(f_liq), rand_dec()])
+    f_in0, f_in1 = Decimal(rng.randint(0, 10**14)), rng.choice([Decimal(rng.randint(0, 10**24)), rand_dec()])
+    f_p0, f_p1 = rng.choice([Decimal(0), rand_dec()]), rng.choice([Decimal(0), rand_dec()])
+
+    def upd_fee():
+        position = Position(f_p0, f_p1, f_liq, Decimal(1), Decimal(2), Decimal(1))
+        st = UniV3PoolStatus(price=Decimal(1), currentLiquidity=f_cur, inAmount0=f_in0, inAmount1=f_in1, closeTick=f_close)
+        V3CoreLib.update_fee(f_last, upool, PositionInfo(f_lo, f_up), position, st)
+        return (position.pending_amount0, position.pending_amount1)
+    case("uc_update_fee", f"unicore_update_fee NumCtx.py {li(f_liq)} {lr(f_cur)} {lr(f_in0)} {lr(f_in1)} {li(d0)} {li(d1)} {lr(upool.fee_rate)} "
+                          f"{li(f_lo)} {li(f_up)} {li(f_close)} {lr(f_p0)} {lr(f_p1)} {li(f_last)}", "shRR", upd_fee)
+
+    # ---- GMX v2 (float mode): the generated definitions at α = Float against CPython floats, bit for bit (NaN = NaN; the two zeros are one value:
+    # the prelude's abs keeps the sign of -0.0, see Demeter/PyFloat.lean).  Labels ending in `(pow)` go through `**` (libm `pow`, an oracle).
+    import struct
+    from demeter.gmx.gmx_v2._typing import PoolConfig, GmxV2PoolStatus
+    from demeter.gmx.gmx_v2.utils import Calc, PricingUtils
+    from demeter.gmx.gmx_v2.MarketUtils import MarketUtils as MU
+    from demeter.gmx.gmx_v2.SwapPricingUtils import SwapPriceUtils as SPU, SwapPricingType, GetPriceImpactUsdParams, PoolParams
+    from demeter.gmx.gmx_v2.ExecuteDepositUtils import ExecuteDepositUtils as EDU
+    from demeter.gmx.gmx_v2.ExecuteWithdrawUtils import ExecuteWithdrawUtils as EWU
+
+    def lf(x):          # Lean Float from its bits
+        return f"(Float.ofBits {struct.unpack('<Q', struct.pack('<d', float(x)))[0]})"
+
+    def lof(x):
+        return "none" if x is None else f"(some {lf(x)})"
+
+    def fshow(v):
+        if isinstance(v, (tuple, list)):
+            return "[" + ", ".join(fshow(x) for x in v) + "]"
+        if isinstance(v, complex):
+            raise ArithmeticError("complex")
+        v = float(v)
+        if v != v:
+            return "nan"
+        if v == 0:
+            return "0"
+        return str(struct.unpack('<Q', struct.pack('<d', v))[0])
+
+    def fcase(label, lean_call, fn, flat=None):
+        try:
+            r = fn()
+            exp = "ok " + fshow(flat(r) if flat else r)
+        except ArithmeticError as e:       # OverflowError, ZeroDivisionError are ArithmeticErrors; a complex result is reported as Unsupported
+            nm = type(e).__name__
+            exp = "err Unsupported" if nm == "ArithmeticError" else "err " + nm
+        except TypeError:                  # arithmetic on a complex that came out of `**`
+            exp = "err Unsupported"
+        except Exception as e:  # noqa
+            exp = "err " + type(e).__name__
+        cases.append((label, f"shFs ({lean_call})", exp))
+
+    def rf(kind=None):
+        kind = kind or rng.choice(["amt", "amt", "amt", "price", "small", "zero", "neg", "huge"])
+        if kind == "zero": return 0.0
+        if kind == "neg": return -rng.uniform(0, 1e6)
+        if kind == "huge": return rng.choice([1e200, 1e308, 1e-300, float("inf")]) if rng.random() < 0.5 else rng.uniform(1e15, 1e25)
+        if kind == "small": return rng.uniform(0, 1e-6)
+        if kind == "price": return rng.choice([1.0, rng.uniform(0.5, 70000)])
+        return rng.uniform(0, 1e7)
+    O = "floatOps64"
+    x1, x2, x3 = rf(), rf(), rf()
+    bl = rng.random() < 0.5
+    lb = "true" if bl else "false"
+    fcase("g2_diff", f"(gmx2_diff {lf(x1)} {lf(x2)}).map (fun r => [r])", lambda: [Calc.diff(x1, x2)])
+    fcase("g2_toSigned", f"(gmx2_toSigned {lf(x1)} {lb}).map (fun r => [r])", lambda: [Calc.toSigned(x1, bl)])
+    fcase("g2_sumUint", f"(gmx2_sumReturnUint256 {lf(x1)} {lf(x2)}).map (fun r => [r])", lambda: [Calc.sumReturnUint256(x1, x2)])
+    fcase("g2_gm_price", f"(gmx2_get_gm_price {O} {lf(x1)} {lf(x2)}).map (fun r => [r])", lambda: [PricingUtils.get_gm_price(x1, x2)])
+    ex = rng.choice([2.0, 2.0, 2.0, 1.0, 1.5, 2.2, 0.0, -1.0, 3.0])
+    fa, fb_ = rng.choice([2e-10, 1e-9, 0.0, rf("small")]), rng.choice([4e-10, 5e-10, rf("small")])
+    fcase("g2_applyImpactFactor(pow)", f"(gmx2_applyImpactFactor {O} {lf(x1)} {lf(fa)} {lf(ex)}).map (fun r => [r])",
+          lambda: [PricingUtils.applyImpactFactor(x1, fa, ex)])
+    d1, d2 = abs(x1), abs(x2)
+    fcase("g2_sameSide(pow)", f"(gmx2_getPriceImpactUsdForSameSideRebalance {O} {lf(d1)} {lf(d2)} {lf(fa)} {lf(ex)}).map (fun r => [r])",
+          lambda: [PricingUtils.getPriceImpactUsdForSameSideRebalance(d1, d2, fa, ex)])
+    fcase("g2_crossover(pow)", f"(gmx2_getPriceImpactUsdForCrossoverRebalance {O} {lf(d1)} {lf(d2)} {lf(fa)} {lf(fb_)} {lf(ex)}).map (fun r => [r])",
+          lambda: [PricingUtils.getPriceImpactUsdForCrossoverRebalance(d1, d2, fa, fb_, ex)])
+    cfg = PoolConfig(18, 6, ex, fa, fb_, rng.choice([0.0005, 0.0]), rng.choice([0.0007, 0.01]), 0.0005, rng.choice([0.0007, 0.003]))
+    fcase("g2_adjFactors", f"(gmx2_getAdjustedSwapImpactFactors {lf(fa)} {lf(fb_)}).map (fun r => [r.1, r.2])", lambda: MU.getAdjustedSwapImpactFactors(cfg))
+    fcase("g2_impactWithCap", f"(gmx2_getSwapImpactAmountWithCap {O} {lf(x1)} {lf(x2)} {lf(x3)}).map (fun r => [r.1, r.2])",
+          lambda: MU.getSwapImpactAmountWithCap(x1, x2, x3))
+    fcase("g2_usdToGm", f"(gmx2_usdToMarketTokenAmount {O} {lf(x1)} {lf(x2)} {lf(x3)}).map (fun r => [r])", lambda: [MU.usdToMarketTokenAmount(x1, x2, x3)])
+    la, sa = rf("amt"), rf("amt") * 2000
+    lp, sp = rng.choice([rf("price"), 0.0]) if rng.random() < 0.1 else rf("price"), rng.choice([1.0, rf("price")])
+    pv = rng.choice([la * lp + sa * sp, rf(), 0.0]) if rng.random() < 0.3 else la * lp + sa * sp
+    sup = rng.choice([rf("amt"), 0.0]) if rng.random() < 0.1 else rf("amt") + 1.0
+    vl, vs = (None, None) if rng.random() < 0.3 else (rng.choice([None, rf("amt")]), rf("amt") * 2000)
+    ipool = rng.choice([0.0, rf("small"), rf("amt")])
+    st = GmxV2PoolStatus(la, sa, vl, vs, pv, sup, ipool, lp, sp, lp)
+    gm = rng.choice([rf("amt"), 0.0, rf()])
+    fcase("g2_amountsFromGM", f"(gmx2_getTokenAmountsFromGM {O} {lf(la)} {lf(sa)} {lf(pv)} {lf(sup)} {lf(lp)} {lf(sp)} {lf(gm)}).map (fun r => [r.1, r.2])",
+          lambda: MU.getTokenAmountsFromGM(st, gm))
+    da, db = rng.choice([rf("amt"), -rf("amt"), 0.0]) * lp, rng.choice([rf("amt"), -rf("amt"), 0.0])
+    prm = GetPriceImpactUsdParams(cfg, lp, sp, da, db, True, True)
+    pp4 = lambda r: [r.poolUsdForTokenA, r.poolUsdForTokenB, r.nextPoolUsdForTokenA, r.nextPoolUsdForTokenB]      # noqa: E731
+    fcase("g2_nextPoolParams", f"(gmx2_getNextPoolAmountsParams {lf(lp)} {lf(sp)} {lf(da)} {lf(db)} {lf(la)} {lf(sa)}).map "
+                               "(fun r => [r.1, r.2.1, r.2.2.1, r.2.2.2])", lambda: pp4(SPU.getNextPoolAmountsParams(prm, la, sa)))
+    ppv = PoolParams(rf("amt"), rf("amt"), rf("amt"), rf("amt"))
+    fcase("g2__getPriceImpactUsd(pow)", f"(gmx2__getPriceImpactUsd {O} {lf(fa)} {lf(fb_)} {lf(ex)} "
+                                        f"({lf(ppv.poolUsdForTokenA)}, {lf(ppv.poolUsdForTokenB)}, {lf(ppv.nextPoolUsdForTokenA)}, {lf(ppv.nextPoolUsdForTokenB)})).map (fun r => [r])",
+          lambda: [SPU._getPriceImpactUsd(cfg, ppv)])
+    fcase("g2_getPriceImpactUsd(pow)", f"(gmx2_getPriceImpactUsd {O} {lf(lp)} {lf(sp)} {lf(da)} {lf(db)} true true {lf(fa)} {lf(fb_)} {lf(ex)} "
+                                       f"{lf(la)} {lf(sa)} {lof(vl)} {lof(vs)}).map (fun r => [r])", lambda: [SPU.getPriceImpactUsd(prm, st)])
+    spt = rng.choice(list(SwapPricingType))
+    fcase("g2_getSwapFees", f"(gmx2_getSwapFees {lf(cfg.depositFeeFactorForPositiveImpact)} {lf(cfg.depositFeeFactorForNegativeImpact)} "
+                            f"{lf(cfg.withdrawFeeFactorForPositiveImpact)} {lf(cfg.withdrawFeeFactorForNegativeImpact)} {lf(x1)} {lb} {li(spt.value)}).map (fun r => [r.1, r.2])",
+          lambda: (lambda f_: [f_.amountAfterFees, f_.totalFee])(SPU.getSwapFees(cfg, x1, bl, spt)))
+    fees4 = f"{lf(cfg.depositFeeFactorForPositiveImpact)} {lf(cfg.depositFeeFactorForNegativeImpact)} {lf(cfg.withdrawFeeFactorForPositiveImpact)} {lf(cfg.withdrawFeeFactorForNegativeImpact)}"
+    amt_in, imp = rf("amt"), rng.choice([rf("amt"), -rf("amt"), 0.0, -rf("huge")])
+    left = rng.choice([None, ipool, rf("small")])
+    fcase("g2_calc_token_amount", f"(gmx2_calc_token_amount {O} {fees4} {lf(pv)} {lf(sup)} {lf(ipool)} {lf(lp)} {lf(sp)} {lf(amt_in)} {lf(imp)} {lof(left)}).map "
+                                  "(fun r => [r.1, r.2.1, r.2.2])",
+          lambda: (lambda r: [r[0], r[1].amountAfterFees, r[1].totalFee])(EDU.calc_token_amount(cfg, st, lp, sp, amt_in, imp, left)))
+    dl_, ds_ = rng.choice([rf("amt") / 1000, 0.0, -1.0]), rng.choice([rf("amt"), 0.0])
+    lp9 = lambda r: [r.long_amount, r.short_amount, r.total_usd, r.gm_amount, r.gm_usd, r.long_fee, r.short_fee, r.fee_usd, r.price_impact_usd]   # noqa: E731
+    L9 = "(fun r => [r.1, r.2.1, r.2.2.1, r.2.2.2.1, r.2.2.2.2.1, r.2.2.2.2.2.1, r.2.2.2.2.2.2.1, r.2.2.2.2.2.2.2.1, r.2.2.2.2.2.2.2.2])"
+    fcase("g2_get_mint_amount(pow)", f"(gmx2_get_mint_amount {O} {lf(fa)} {lf(fb_)} {lf(ex)} {fees4} {lf(la)} {lf(sa)} {lof(vl)} {lof(vs)} {lf(pv)} {lf(sup)} "
+                                     f"{lf(ipool)} {lf(lp)} {lf(sp)} {lf(dl_)} {lf(ds_)}).map {L9}", lambda: lp9(EDU.get_mint_amount(cfg, st, dl_, ds_)))
+    fcase("g2_getOutputAmount", f"(gmx2_getOutputAmount {O} {fees4} 18 6 {lf(la)} {lf(sa)} {lf(pv)} {lf(sup)} {lf(lp)} {lf(sp)} {lf(gm)}).map {L9}",
+          lambda: lp9(EWU.getOutputAmount(cfg, st, gm)))
+
+    # ---- result/metrics/calculator.py: the drawdown scan on a list of Python floats (what `Series.to_list()` hands it)
+    from demeter.result.metrics.calculator import _withdraw_with_high_low, return_value
+    nv = [rng.choice([rf("amt"), rf("amt"), 0.0, rf("neg"), 100.0]) for _ in range(rng.choice([0, 1, 2, 3, 5, 8, 13]))]
+    if rng.random() < 0.3:
+        nv = sorted(nv)
+    fcase("m_withdraw_high_low", f"(metrics_withdraw_with_high_low {O} [{', '.join(lf(x) for x in nv)}]).map (fun r => [r.1, Float.ofInt r.2.1, Float.ofInt r.2.2])",
+          lambda: (lambda r: [float(r[0]), float(r[1]), float(r[2])])(_withdraw_with_high_low(list(nv))))
+    fcase("m_return_value", f"(metrics_return_value {lf(x1)} {lf(x2)}).map (fun r => [r])", lambda: [return_value(x1, x2)])
+
 HEAD = """import Demeter.Gen.PySqueethMarket
+import Demeter.Gen.PyMetricsCalculator
+import Demeter.Gen.PyGmx2ExecuteDepositUtils
+import Demeter.Gen.PyGmx2ExecuteWithdrawUtils
+import Demeter.Gen.PyUniswapCore
 import Demeter.Gen.PyTrigger
 import Demeter.Gen.PyBrokerTyping
 import Demeter.Gen.PyLiquitidyMath
@@ -219,16 +392,27 @@ import Demeter.Gen.PyDeribitMarket
 open Demeter Demeter.Py
 def shErr : Err → String
   | .ZeroDivisionError => "ZeroDivisionError" | .DivisionByZero => "DivisionByZero" | .InvalidOperation => "InvalidOperation"
-  | .AssertionError => "AssertionError" | .KeyError => "KeyError" | .ValueError => "ValueError" | .TypeError => "TypeError"
+  | .AssertionError => "AssertionError" | .KeyError => "KeyError" | .ValueError => "ValueError" | .TypeError => "TypeError" | .IndexError => "IndexError"
   | .Raised c => c | .Unsupported w => "Unsupported:" ++ w
 def rs (v : Rat) : String := s!"{v.num}/{v.den}"
 def shI : Except Err Int → String | .ok v => s!"ok {v}" | .error e => "err " ++ shErr e
 def shR : Except Err Rat → String | .ok v => "ok " ++ rs v | .error e => "err " ++ shErr e
 def shRR : Except Err (Rat × Rat) → String | .ok v => s!"ok ({rs v.1}, {rs v.2})" | .error e => "err " ++ shErr e
 def shS : Except Err String → String | .ok v => "ok " ++ v | .error e => "err " ++ shErr e
+def fb (x : Float) : String := if x.isNaN then "nan" else if x == 0 then "0" else toString x.toBits
+def shFs : Except Err (List Float) → String
+  | .ok v => "ok [" ++ String.intercalate ", " (v.map fb) ++ "]"
+  | .error (.Unsupported _) => "err Unsupported"
+  | .error e => "err " ++ shErr e
 def shX : Except Err XDec → String | .ok (.fin v) => "ok " ++ rs v | .ok .inf => "ok inf" | .error e => "err " ++ shErr e
 """
 
+# the imported modules must be compiled against the current prelude / generated sources (`lake env lean` does not rebuild imports)
+mods = [l.split()[1] for l in HEAD.split("\n") if l.startswith("import ")]
+pb = subprocess.run(["lake", "build"] + mods, cwd=os.path.join(V, "lean"), stdout=subprocess.PIPE, stderr=subprocess.STDOUT, text=True)
+if pb.returncode != 0:
+    print("py2lean_diff: lake build of the generated modules failed:\n" + pb.stdout[-1500:])
+    sys.exit(2)
 with tempfile.NamedTemporaryFile("w", suffix=".lean", delete=False, dir="/tmp") as f:
     f.write(HEAD)
     for _, lean, _ in cases:
